@@ -62,7 +62,9 @@ def validate(ctx, level, n, events_path, sched_by_id, results_by_id):
     module = "Trace_SFI" if level == "inbound" else "Trace_SFS"
     cfg = "%s_%d.cfg" % (module, n)
     validated = 0
-    for attempt in range(6):
+    for attempt in range(4):
+        if len(ctx.violations) >= 3:
+            return validated
         rows = lib.read_ndjson(events_path)
         if not rows:
             break
